@@ -61,10 +61,14 @@ class Tools:
     def __init__(self, ctx, b):
         self.ctx, self.b, self.env = ctx, b, b.env()
         self.n = 0
+        import threading
+        self._lock = threading.Lock()
 
     def dir(self):
-        self.n += 1
-        d = os.path.join(self.ctx.work, f"r{self.n}")
+        with self._lock:
+            self.n += 1
+            n = self.n
+        d = os.path.join(self.ctx.work, f"r{n}")
         os.makedirs(d)
         return d
 
@@ -295,6 +299,63 @@ def decl_syntax_correspondence(ctx, model, toks_src, toks_out, src):
                 ctx.corr_problems.append(("decl-syntax", f"{key[0]} {key[1]}: exppp `{want[2:]}` vs model `{rep[2:]}`", src)); return
     except (D.DeclError, KeyError, IndexError) as ex:
         ctx.corr_problems.append(("decl-syntax", f"cannot compare declaration syntax: {type(ex).__name__} {ex}", src))
+
+
+SWEEP_WIDTHS = list(range(10, 61)) + [61, 79, 80, 81, 100, 129, 130, 131, 99999]
+
+
+def dense_sweep(ctx, tools, model, src, label, widths=SWEEP_WIDTHS):
+    """line-length boundary x construct: every -l in 10..60 plus boundaries, each of -t, -c alone and combined, on one schema.
+    Oracle per run: exppp succeeds, the output is accepted by check-express and its normalised declaration AST equals the
+    source's (token-identical up to remarks, layout, parentheses, split literals).  The tool runs go through a thread pool."""
+    from concurrent.futures import ThreadPoolExecutor
+    ok, msg = tools.accepts(src)
+    if not ok:
+        ctx.broken.append(("dense sweep", f"{label} is not accepted by check-express: {msg[-200:]}"))
+        return
+    ast_src = D.parse_schema(fold(X.lex(src)))
+    runs = [(w, t, c) for w in widths for (t, c) in ((False, False), (True, False), (False, True), (True, True))]
+
+    def one(wtc):
+        w, t, c = wtc
+        rc, out, err = tools.exppp(src, w, t, c)
+        if rc != 0 or out is None:
+            return wtc, ("exppp-failed", f"exppp exits {rc} on an accepted schema: {err[-200:]}"), out
+        acc, m = tools.accepts(out)
+        return wtc, (None if acc else ("rejected", "the pretty-printed text is rejected by check-express: " + " | ".join(m.strip().split("\n")[:2]))), out
+
+    cache = {}
+    def cmp_expr(a, b, where):
+        k = (tuple(a), tuple(b))
+        if k not in cache:
+            cache[k] = same_expr(model, a, b, where)
+        return cache[k]
+
+    with ThreadPoolExecutor(max_workers=12) as ex:
+        results = list(ex.map(one, runs))
+    seen_outputs = {}
+    for (w, t, c), prob, out in results:
+        ctx.count(1, key=("sweep", label, w, t, c))
+        ctx.hist("dense sweep", f"{label} t={int(t)} c={int(c)}")
+        if prob is None:
+            toks = None
+            try:
+                toks = fold(X.lex(body_of(out)))
+                kk = tuple(toks)
+                if kk not in seen_outputs:
+                    seen_outputs[kk] = D.compare(ast_src, D.parse_schema(toks), cmp_expr)
+                diff = seen_outputs[kk]
+                if diff:
+                    prob = ("not-equivalent", diff)
+            except (X.LexError, X.DeclError) as e:
+                prob = ("unreadable", f"the pretty-printed text cannot be read as declarations ({e})")
+        if prob:
+            kind, detail = prob
+            args = ["-l", str(w)] + (["-t"] if t else []) + (["-c"] if c else [])
+            ctx.violation(f"sweep:{label}:{kind}:" + re.sub(r"[^A-Za-z0-9_/:.-]+", "_", detail)[:100], f"{label} at {' '.join(args)}: {detail}",
+                          {"schema": src, "exppp_args": args, "kind": kind, "extended": True, "output": out})
+            if len(ctx.violations) >= 4:
+                return
 
 
 def evaluate_ext(ctx, tools, model, src, settings, label="", key=None):
@@ -596,6 +657,19 @@ def run(ctx):
                          label=f"extended#{i}")
             if i == 0:
                 ctx.sample({"extended_schema": src[:1500]})
+        # 2d. dense option sweep (line-length boundary x construct): static family corpus/C07/sweep/*.exp (every declaration and
+        # statement kind at nesting depth 0..2, LOCAL blocks with short and long names, CASE with long selectors) and the
+        # generator's cover schema; quick: one static schema + the cover schema, thorough: all
+        sdir = os.path.join(VERIF, "corpus", "C07", "sweep")
+        sweep_files = sorted(f for f in os.listdir(sdir) if f.endswith(".exp")) if os.path.isdir(sdir) else []
+        for f in sweep_files:
+            if len(ctx.violations) < 4:
+                dense_sweep(ctx, tools, model, open(os.path.join(sdir, f)).read(), "sweep/" + f)
+        if len(ctx.violations) < 4:
+            gcov = X.GenDecl(ctx.rng, feats, split_safe=not split_paren)
+            gcov.simple_index = not index_paren
+            dense_sweep(ctx, tools, model, gcov.schema_src(cover=True), "sweep/generated-cover",
+                        widths=SWEEP_WIDTHS if not quick else list(range(10, 61, 2)) + [61, 80, 130, 99999])
         # 2c. numeric literals on a grid (mantissa digits x decimal exponents x notations; integers up to 25 digits), compared by VALUE.
         # Literals the tools cannot represent are classified from the INPUT and reported under one key per class.
         reals = X.real_grid(not quick, ctx.rng)
